@@ -9,14 +9,18 @@ surfaces, the trackers called directly with and without a cutoff band.
 Failing-input search (every run): contact iff overlap, depth/normal/location formulas, swap symmetry and rigid-motion
 invariance evaluated on the implementation alone (harness/C35_probe.cpp SEARCH).
 Known finding demonstrated on the real code: concentric spheres overlap but no contact is reported (the tracker fails).
-Not modelled: ellipsoid, brick, mesh and convex-implicit pairs, contact tracking over time (ids, broken contacts)."""
+Convex-convex detector (ellipsoid/ellipsoid, ellipsoid/sphere), closed-form families only (coq/C35/C35_cc_*.v): pairs whose
+centres lie exactly on a common principal axis, compared with the closed form and, on the implementation alone, with 1e-7
+sideways offsets (continuity), the other surface order and a common rigid motion.  General convex-convex configurations
+(MPR + Newton) remain undecided.
+Not modelled: half-space/ellipsoid, brick, mesh pairs, contact tracking over time (ids, broken contacts)."""
 import os, sys, math
 from vlib import *
 
-PROPS = ['Props/Properties_C35.v']
+PROPS = ['Props/Properties_C35.v', 'Props/Properties_C35_cc.v']
 EXTRACT = '''From Coq Require Import Extraction ExtrOcamlBasic.
-Require Import Num Vec C35_Model.
-Extraction "c35model.ml" hs_sphere sphere_sphere tk_hs_sphere tk_sphere_sphere.
+Require Import Num Vec C35_Model C35_cc_Model.
+Extraction "c35model.ml" cc_axis cc_sphere_radius hs_sphere sphere_sphere tk_hs_sphere tk_sphere_sphere.
 '''
 def U(r, lo, hi): return r.uniform(lo, hi)
 def vec(r, s): return [r.uniform(-s, s) for _ in range(3)]
@@ -50,6 +54,99 @@ def gen(r, n):
         out.append(('GS', [i % 2] + ang + ph + c + [r1]))
         out.append(('TH', ang + ph + c + [r1, cutoff]))
     return out
+
+# ---- convex-convex detector, closed-form families (aligned ellipsoid / sphere pairs)
+def gen_cc(r, n):
+    """configurations whose centres lie EXACTLY on a common principal axis (dyadic offsets, axis-aligned first body)"""
+    out = []
+    for i in range(n):
+        fam = i % 4                       # 0 spheres given as ellipsoids, 1 ellipsoid/ellipsoid, 2 ellipsoid/ellipsoid rotated about the axis, 3 ellipsoid/Sphere
+        if fam == 0: a = U(r, 0.3, 1.2); b = U(r, 0.3, 1.2); r1 = [a] * 3; r2 = [b] * 3
+        else: r1 = [U(r, 0.3, 1.2) for _ in range(3)]; r2 = [U(r, 0.3, 1.2) for _ in range(3)]
+        kind2 = 1 if fam == 3 else 0
+        if kind2: r2 = [r2[0]] * 3
+        axis = r.randrange(3); c1 = [r.randrange(-4, 5) / 4.0 for _ in range(3)]
+        m = r.random(); ra, rb = r1[axis], r2[axis]
+        g = -U(r, 0.01, 0.5) * min(ra, rb) if m < 0.7 else (U(r, 0.01, 0.4) if m < 0.85 else -U(r, 1e-4, 1e-2))     # gap < 0: overlapping
+        t = round((ra + rb + g) * 1024) / 1024.0 * r.choice([-1.0, 1.0])
+        phi = U(r, -3, 3) if fam == 2 else 0.0
+        out.append({'fam': fam, 'kind2': kind2, 'r1': r1, 'r2': r2, 'c1': c1, 'axis': axis, 't': t, 'phi': phi, 'order': i // 4 % 2,
+                    'Q': vec(r, 3.0), 'tq': vec(r, 1.0)})
+    return out
+def cc_line(c, offs=(0.0, 0.0, 0.0), useQ=0, order=None):
+    return 'CC ' + fmt([c['order'] if order is None else order, c['kind2']] + c['r1'] + c['r2'] + c['c1'] + [c['axis'], c['t'], c['phi']] + list(offs) + [useQ] + c['Q'] + c['tq'])
+def cc_parse(line):
+    f = parse_floats(line); n = int(f[0])
+    if n == 0: return None, f[-9:]
+    return {'s1': int(f[1]), 's2': int(f[2]), 'depth': f[3], 'n': f[4:7], 'loc': f[7:10], 'rad': f[10]}, f[-9:]
+def vsub(a, b): return [x - y for x, y in zip(a, b)]
+def vnorm(a): return math.sqrt(sum(x * x for x in a))
+def mv(R, v): return [sum(R[3 * i + k] * v[k] for k in range(3)) for i in range(3)]
+
+def run_cc(ctx, exe, drv, n):
+    FAM = ['spheres-as-ellipsoids', 'ellipsoid/ellipsoid', 'ellipsoid/ellipsoid-rotated-about-axis', 'ellipsoid/Sphere']
+    cases = gen_cc(ctx.rng, n); lines = []
+    for c in cases:
+        ax = c['axis']; p1 = [0.0] * 3; p1[(ax + 1) % 3] = 1e-7; p2 = [0.0] * 3; p2[(ax + 2) % 3] = -1e-7
+        lines += [cc_line(c), cc_line(c, p1), cc_line(c, p2), cc_line(c, order=1 - c['order']), cc_line(c, useQ=1)]
+    rc, out, err = sh([exe], input='\n'.join(lines) + '\n', timeout=1800)
+    outs = [l for l in out.split('\n') if l.strip()]
+    if len(outs) != len(lines) or any(o.startswith('!') for o in outs):
+        ctx.broken.append(('harness:C35_probe:CC', 'probe produced %d lines for %d cases / exception %s' % (len(outs), len(lines), [o for o in outs if o.startswith('!')][:1]))); return
+    mlines = []; recs = []
+    for k, c in enumerate(cases):
+        res = [cc_parse(outs[5 * k + j]) for j in range(5)]; recs.append(res)
+        ax = c['axis']; u = [0.0] * 3; u[ax] = 1.0; exact = res[0][0]
+        # which object did the detector treat as object 1?  (index of A in the set is `order`)
+        idxA = c['order']; firstIsA = True if exact is None else (exact['s1'] == idxA)
+        if firstIsA: mlines.append('CC ' + fmt(c['c1'] + u + [c['r1'][ax], c['r2'][ax], c['t']]))
+        else:
+            cB = list(c['c1']); cB[ax] += c['t']; mlines.append('CC ' + fmt(cB + u + [c['r2'][ax], c['r1'][ax], -c['t']]))
+    dis = 0; first = None; hist = {}; pred = None; nontriv = 0
+    if drv:
+        rc, o2, e2 = sh([drv], input='\n'.join(mlines) + '\n', timeout=600)
+        mo = [l for l in o2.split('\n') if l.strip()]
+        if len(mo) != len(cases): ctx.broken.append(('ocaml:C35_drv:CC', 'driver produced %d lines for %d cases' % (len(mo), len(cases)))); mo = None
+    else: mo = None
+    for k, c in enumerate(cases):
+        res = recs[k]; exact = res[0][0]; fam = FAM[c['fam']]
+        hist[fam + (':contact' if exact else ':none')] = hist.get(fam + (':contact' if exact else ':none'), 0) + 1
+        if exact: nontriv += 1
+        # (a) correspondence with the closed-form model at exact alignment
+        if mo:
+            m = parse_floats(mo[k]); impl = [0.0] if exact is None else [1.0, exact['depth']] + exact['n'] + exact['loc'] + ([exact['rad']] if c['fam'] == 0 else [])
+            mm = m[:1] if m[0] == 0 else (m[:8] + ([m[8]] if c['fam'] == 0 else []))
+            okc = len(impl) == len(mm) and all(close(x, y, 1e-8, 1e-9, 1.0) for x, y in zip(impl, mm))
+            if not okc:
+                dis += 1
+                if first is None: first = (lines[5 * k], impl, mm, fam)
+        # (b)-(d) implementation-only predicates: continuity under 1e-7 sideways offsets, swap symmetry, rigid-motion invariance
+        # the reported surface order depends on the broad phase, so normals are compared as "from A towards B"
+        def differs(a, b, idxA_a, idxA_b, Rq=None, tq=None, tol=2e-6):
+            if (a is None) != (b is None): return 'contact %s vs %s' % (a is not None, b is not None)
+            if a is None: return None
+            na = a['n'] if a['s1'] == idxA_a else [-x for x in a['n']]; nb = b['n'] if b['s1'] == idxA_b else [-x for x in b['n']]; la = a['loc']
+            if Rq is not None: na = mv(Rq, na); la = [x + y for x, y in zip(mv(Rq, la), tq)]
+            if abs(a['depth'] - b['depth']) > tol: return 'depth %.9g vs %.9g' % (a['depth'], b['depth'])
+            if vnorm(vsub(na, nb)) > tol * 10: return 'normal (A to B) %s vs %s' % (na, nb)
+            if vnorm(vsub(la, b['loc'])) > tol * 10: return 'location %s vs %s' % (la, b['loc'])
+            return None
+        near_touch = abs(abs(c['t']) - c['r1'][c['axis']] - c['r2'][c['axis']]) < 1e-5
+        iA = c['order']
+        if pred is None and not near_touch:
+            for j in (1, 2):
+                d = differs(exact, res[j][0], iA, iA)
+                if d and pred is None: pred = (lines[5 * k], 'ConvexConvex:continuity-under-1e-7-offset', '%s, centres exactly on axis %d vs offset by 1e-7 sideways: %s' % (fam, c['axis'], d))
+            d = differs(exact, res[3][0], iA, 1 - iA)
+            if d and pred is None: pred = (lines[5 * k], 'ConvexConvex:swap-symmetry', '%s: the two surfaces in the other order: %s' % (fam, d))
+            d = differs(exact, res[4][0], iA, iA, Rq=res[4][1], tq=c['tq'])
+            if d and pred is None: pred = (lines[5 * k], 'ConvexConvex:rigid-motion-invariance', '%s: both bodies moved by the same rigid motion: %s' % (fam, d))
+    ctx.add_cases(len(lines), nontriv, [{'mode': 'CC', 'case': lines[0][:200]}])
+    ctx.extra.setdefault('correspondence_cc', {}).update({'aligned_configurations': len(cases), 'probe_runs': len(lines), 'disagreements': dis, 'by_family': hist})
+    if first: ctx.broken.append(('correspondence:ConvexConvex:aligned', '%s: detector result differs from the closed form: impl=%s model=%s input=%s' % (first[3], first[1], first[2], first[0][:200])))
+    if pred:
+        ctx.broken.append(('predicate:' + pred[1], pred[2]))
+        ctx.report('impl:' + pred[1], pred[2], {'probe_input': pred[0], 'replay_cmd': 'echo "%s" | %s' % (pred[0], exe), 'failing_input': pred[0]})
 
 def run(ctx):
     ctx.build_repo()
@@ -110,6 +207,7 @@ def run(ctx):
                 ctx.extra['correspondence'] = {'cases': len(lines), 'disagreements': dis, 'by_kind': hist, 'rtol': 1e-9}
                 if first: ctx.broken.append(('correspondence:' + first[0], 'implementation and model differ: case=%s %s impl=%s model=%s' % first))
                 if order_bad: ctx.broken.append(('correspondence:GS:surface-order', 'half space not reported as surface 1: %s' % (order_bad,)))
+    run_cc(ctx, exe, drv, 120 if quick else 1200)
     rc, out, err = sh([exe], input='SEARCH %d %d\n' % (ctx.seed % 1000003, 3000 if quick else 60000), timeout=1800)
     fails = [l for l in out.split('\n') if l.startswith('FAIL')]; done = [l for l in out.split('\n') if l.startswith('DONE')]
     ctx.extra['search'] = {'predicate_evaluations': int(done[0].split()[1]) if done else 0, 'failures': int(done[0].split()[2]) if done else -1}
